@@ -1,0 +1,28 @@
+//go:build verif
+
+package wordlist
+
+// Machine-checked contracts for this package (read by /verif/govc; comment-only, compiled only
+// with -tags verif). See /verif/DESIGN.md.
+//
+// A word list is abstract: warr/wlen give the bytes of the i-th word, wok tells whether a string is in the
+// list and widx its index. The one axiom is what a BIP-0039 word list must satisfy: Index and Word are
+// inverse on 0..2047 (the words are pairwise distinct).
+
+//@ decl warr(l List, i int) []byte
+//@ decl wlen(l List, i int) int
+//@ decl wok(l List, w string) bool
+//@ decl widx(l List, w string) int
+
+//@ axiom word_index(l List, i int)
+//@   theory wordlist
+//@   requires 0 <= i && i < 2048
+//@   ensures  wlen(l, i) >= 0 && wok(l, string(warr(l, i)[0:wlen(l, i)])) && widx(l, string(warr(l, i)[0:wlen(l, i)])) == i
+
+//@ assume func (l List) Word(i int) (w string)
+//@   requires 0 <= i && i < 2048
+//@   ensures contents(w) == warr(l, i) && len(w) == wlen(l, i)
+//@ assume func (l List) Index(word string) (r int)
+//@   ensures r == widx(l, word) && implies(wok(l, word), 0 <= r && r < 2048)
+//@ assume func (l List) Contains(word string) (r bool)
+//@   ensures r == wok(l, word)
